@@ -5,6 +5,7 @@ CONSTANTS
   Dev_h12 = FALSE
   Dev_h13 = FALSE
   Dev_ownerAbsent = FALSE
+  Dev_length = FALSE
   Emit = FALSE
-INVARIANTS AuthUserSound AuthUserComplete AuthOwnerSound AuthOwnerComplete KeyAgreement NoKeyWithoutAuth Plaintext Shapes ImplDictRefines ImplKeyRefines ImplItemRefines ImplOpens ImplRejects EmitInv
+INVARIANTS AuthUserSound AuthUserComplete AuthOwnerSound AuthOwnerComplete KeyAgreement NoKeyWithoutAuth Plaintext Shapes ImplDictRefines ImplKeyRefines ImplItemRefines ImplOpens ImplRejects LengthAgreement ImplLengthRefines EmitInv
 CHECK_DEADLOCK FALSE
